@@ -6,6 +6,8 @@ CONSTANTS
   Mutex = TRUE
   ErrsCloser = "postgen"
   MainReadsErrs = TRUE
+  GenVariants = {1}
+  SlotRelease = "deferred"
   SkipRule = "coded"
   TwoRuns = FALSE
   EmitCases = FALSE
